@@ -241,6 +241,76 @@ func vfE4GenTrailing(r *vfRand, hist map[string]int) ([]byte, []string) {
 	return buf.Bytes(), toks
 }
 
+// vfE4GenIdentified (audit C32): a stream that gets PAST IDENTIFY (valid document, exact size) and is hostile
+// afterwards: the bad-name matrix on REGISTER / UNREGISTER (so `getTopicChan` is reached: E_BAD_TOPIC /
+// E_BAD_CHANNEL), re-IDENTIFY in several shapes, unknown / mis-cased commands, over-long lines, argument counts —
+// after 0–3 valid commands (whose registrations must be gone after the error).
+func vfE4GenIdentified(r *vfRand, hist map[string]int) []byte {
+	var buf bytes.Buffer
+	buf.WriteString("  V1IDENTIFY\n")
+	body := vfE4IdentifyBody([]byte(vfE4Pick(r, []string{"hX", "hY", "hA"})), []byte("nX"), []byte("v9"), 1+r.Intn(3), 4151+r.Intn(2))
+	binary.Write(&buf, binary.BigEndian, int32(len(body)))
+	buf.Write(body)
+	for n := r.Intn(4); n > 0; n-- {
+		buf.WriteString(vfE4Pick(r, []string{"PING\n", "REGISTER t c\n", "REGISTER x1\n", "UNREGISTER t c\n", "REGISTER e#ephemeral d#ephemeral\n",
+			"UNREGISTER e#ephemeral d#ephemeral\n", "UNREGISTER t\n", " REGISTER zz \n"}))
+	}
+	cmd := vfE4Pick(r, []string{"REGISTER", "UNREGISTER"})
+	k := r.Intn(20)
+	switch {
+	case k < 7:
+		buf.WriteString(cmd + " " + vfE4Pick(r, vfE4BadNames[1:]))
+		if r.Intn(2) == 0 {
+			buf.WriteString(" " + vfE4Pick(r, vfE4GoodNames))
+		}
+		buf.WriteString("\n")
+		hist["ident:bad-topic"]++
+	case k < 12:
+		buf.WriteString(cmd + " " + vfE4Pick(r, vfE4GoodNames) + " " + vfE4Pick(r, vfE4BadNames[1:]) + "\n")
+		hist["ident:bad-channel"]++
+	case k < 15:
+		// re-IDENTIFY shapes: bare, with size+body, with a negative size, with arguments, padded, truncated size
+		shape := r.Intn(6)
+		switch shape {
+		case 0:
+			buf.WriteString("IDENTIFY\n")
+		case 1:
+			buf.WriteString("IDENTIFY\n")
+			binary.Write(&buf, binary.BigEndian, int32(len(body)))
+			buf.Write(body)
+		case 2:
+			buf.WriteString("IDENTIFY\n\xff\xff\xff\xff")
+		case 3:
+			buf.WriteString("IDENTIFY again and again\n")
+		case 4:
+			buf.WriteString("\xc2\xa0IDENTIFY \t\n\x00\x00\x00\x02{}")
+		default:
+			buf.WriteString("IDENTIFY\n\x00\x00")
+		}
+		hist[fmt.Sprintf("ident:re-identify-%d", shape)]++
+	case k < 17:
+		buf.WriteString(vfE4Pick(r, []string{"register t", "Unregister t c", "PINGX", "PUB t", "SUB t c", "NOP", "\x00", "REGISTER\tt c", "IDENTIFY2", ""}) + "\n")
+		hist["ident:unknown"]++
+	case k < 18:
+		buf.WriteString(cmd + " " + strings.Repeat("A", 1000+r.Intn(70000)) + "\n")
+		hist["ident:long-name"]++
+	case k < 19:
+		buf.WriteString(vfE4Pick(r, []string{"REGISTER", "UNREGISTER", "REGISTER ", "UNREGISTER  c", "REGISTER  c"}) + "\n")
+		hist["ident:argcount"]++
+	default:
+		buf.WriteString(strings.Repeat("B", 5000+r.Intn(100000)) + vfE4Pick(r, []string{"\n", "", " t\n"}))
+		hist["ident:long-line"]++
+	}
+	if r.Intn(2) == 0 {
+		buf.WriteString("PING\nREGISTER after c\n") // never executed: every error is fatal
+	}
+	hist["stream:identified-hostile"]++
+	return buf.Bytes()
+}
+
+// vfE4MagicPins: the magic is pinned by behaviour (the textual tie cannot tell "  V1" from " V1")
+var vfE4MagicPins = []string{"  V1", " V1", "  V2", "  v1", " V1 ", "V1  ", "\tV1 ", "  V1\n", "   V1"}
+
 func vfE4GenStream(r *vfRand, noneg bool, hist map[string]int) ([]byte, []string) {
 	var buf bytes.Buffer
 	var dec []string
@@ -382,13 +452,19 @@ func TestVerifE4Hostile(t *testing.T) {
 			id++
 		}
 		var line string
-		if r.Intn(4) == 0 {
+		pin := i - 1 // the first cases of every shard pin the magic
+		if r.Intn(4) == 0 && !(pin >= 0 && pin < len(vfE4MagicPins)) {
 			line = vfE4GenSpoof(r, hist, env.vnow, id, by)
 		} else {
 			var data []byte
 			var toks []string
-			if r.Intn(5) == 0 {
+			if pin >= 0 && pin < len(vfE4MagicPins) {
+				data = []byte(vfE4MagicPins[pin] + "PING\nPING\n")
+				hist["magic:pinned"]++
+			} else if r.Intn(5) == 0 {
 				data, toks = vfE4GenTrailing(r, hist)
+			} else if r.Intn(2) == 0 {
+				data = vfE4GenIdentified(r, hist)
 			} else {
 				data, _ = vfE4GenStream(r, noneg, hist)
 			}
